@@ -5,7 +5,7 @@ From Coq Require Import List NArith ZArith Bool Arith Lia.
 From StgV Require Import Model.CmdSpec Model.LocatorSpec.
 From StgV Require Import Proofs.CharsProofs Proofs.ReorderProofs Proofs.ReachBase Proofs.ReachStep
   Proofs.LocatorProofs Proofs.PickBasics.
-From StgV Require Proofs.WfFrame.
+From StgV Require Proofs.WfFrame Proofs.WfCmd.
 Import ListNotations.
 Local Open Scope nat_scope.
 
@@ -495,14 +495,14 @@ Definition cex_idf (s : str) : str := s.
 (* two unapplied patches p0, p1 *)
 Definition cex_world_unapplied : world :=
   let w := run cex_idf (init_world [1;1;0]%N)
-              [CInit; CNew [112;48]%N 1%N [120]%N; GEdit 0 5%N; CRefresh;
+              [CInit; CNew [112;48]%N 1%N [120]%N; GEdit 0 5%N; CRefresh None;
                CNew [112;49]%N 2%N [121]%N; CPop None None true false false] in
   with_wt w (w_wt w) true.
 
 (* two applied patches p0, p1 *)
 Definition cex_world_applied : world :=
   let w := run cex_idf (init_world [1;1;0]%N)
-              [CInit; CNew [112;48]%N 1%N [120]%N; GEdit 0 5%N; CRefresh;
+              [CInit; CNew [112;48]%N 1%N [120]%N; GEdit 0 5%N; CRefresh None;
                CNew [112;49]%N 2%N [121]%N] in
   with_wt w (w_wt w) true.
 
@@ -628,12 +628,22 @@ Section Refuse.
   Lemma run_spill_refused : refused w (run_spill w).
   Proof. unfold run_spill. opened op Hr Hu1. rewrite Hu1. exact Hr. Qed.
 
-  Lemma run_refresh_refused : refused w (run_refresh w).
+  Lemma run_refresh_refused : forall p, refused w (run_refresh w p).
   Proof.
-    unfold run_refresh. opened op Hr Hu1.
+    intros p. unfold run_refresh.
+    destruct (match p with Some o => _ | None => _ end) as [loc_l|] eqn:Ep; [|apply refused_x1].
+    pose proof (WfCmd.refresh_loc_wf p loc_l Ep) as Hwf. clear Ep.
+    opened op Hr Hu1.
     destruct (negb (head_top_ok op)); [exact Hr|].
-    destruct (last_error (s_applied (op_state op))); [|exact Hr].
-    rewrite Hu1. exact Hr.
+    assert (Hnp : forall l, loc_l = Some l ->
+              resolve_constrained (view_of (op_state op)) LCVisible l <> RPanic).
+    { intros l El E. pose proof (resolve_constrained_ok (view_of (op_state op)) LCVisible l (Hwf l El)) as Hk.
+      now rewrite E in Hk. }
+    match goal with |- refused w (rres_bind _ ?r _) => destruct r as [pn| |] eqn:Epn; cbn [rres_bind] end.
+    - rewrite Hu1. exact Hr.
+    - exact Hr.
+    - exfalso. destruct loc_l as [l|]; [now apply (Hnp l eq_refl)|].
+      destruct (last_error (s_applied (op_state op))); discriminate.
   Qed.
 
   Lemma run_squash_refused : forall r nm meta msg, refused w (run_squash w r nm meta msg).
@@ -775,7 +785,7 @@ Qed.
    outside stg, an unmerged index, `stg pick --noapply HEAD`. *)
 Definition cex_world_extmod : world :=
   let w := run cex_idf (init_world [1;1;0]%N)
-              [CInit; CNew [112;48]%N 1%N [120]%N; GEdit 0 5%N; CRefresh;
+              [CInit; CNew [112;48]%N 1%N [120]%N; GEdit 0 5%N; CRefresh None;
                GEdit 1 7%N; GCommit 3%N [121]%N] in
   with_wt w (w_wt w) true.
 
@@ -1048,6 +1058,48 @@ Proof.
       apply squash_finish_calm. apply (calm_ext t2); [congruence|exact H2].
 Qed.
 
+Lemma cm_refresh_commit : forall t pc tr, cm (fst (refresh_commit t pc tr)) = cm t.
+Proof.
+  intros t pc tr. unfold refresh_commit. destruct (tree_eqb _ _); [reflexivity|].
+  unfold put. reflexivity.
+Qed.
+
+Lemma refresh_absorb_calm : forall pn tmpname, calmf (refresh_absorb pn tmpname).
+Proof.
+  intros pn tmpname t Hc. unfold refresh_absorb. destruct (mem pn (t_applied t)).
+  - cbv zeta. apply calm_tbind.
+    + destruct (Nat.ltb _ _); [|exact Hc].
+      match goal with |- context [pop_patches ?f t] =>
+        pose proof (cm_pop f t) as Hp; destruct (pop_patches f t) as [t1 extra] end.
+      cbn [fst] in Hp. destruct extra; [|exact I].
+      apply push_patches_calm. now apply (calm_ext t).
+    + intros t1 H1.
+      destruct (t_patch t1 pn) as [pc|]; [|exact I].
+      destruct (t_patch t1 tmpname) as [tc|]; [|exact I].
+      destruct (last_error _) as [top|]; [|exact I]. destruct (negb _); [exact I|].
+      pose proof (cm_refresh_commit t1 pc (tree_of (t_objs t1) tc)) as H2.
+      destruct (refresh_commit t1 pc _) as [t2 newc]. cbn [fst] in H2.
+      pose proof (cm_delete (fun n => name_eqb n tmpname) t2) as H3.
+      destruct (delete_patches _ t2) as [t3 inc]. cbn [fst] in H3.
+      assert (C3 : calm t3) by (apply (calm_ext t1); [congruence|exact H1]).
+      apply calm_tbind; [|apply push_patches_calm].
+      destruct newc; [now apply update_patch_calm|exact C3].
+  - match goal with |- context [pop_patches ?f t] =>
+      pose proof (cm_pop f t) as Hp; destruct (pop_patches f t) as [t1 extra] end.
+    cbn [fst] in Hp. destruct extra; [|exact I].
+    assert (C1 : calm t1) by (now apply (calm_ext t)).
+    destruct (t_patch t1 pn) as [pc|]; [|exact I].
+    destruct (t_patch t1 tmpname) as [tc|]; [|exact I].
+    destruct (first_parent _ _) as [tpar|]; [|exact C1].
+    destruct (apply3way _ _ _ _) as [tree'|]; [|exact C1].
+    pose proof (cm_refresh_commit t1 pc tree') as H2.
+    destruct (refresh_commit t1 pc tree') as [t2 newc]. cbn [fst] in H2.
+    assert (C2 : calm t2) by (now apply (calm_ext t1)).
+    apply calm_tbind.
+    + destruct newc; [now apply update_patch_calm|exact C2].
+    + intros t3 C3. cbn [calm_res]. apply (calm_ext t3); [apply cm_delete|exact C3].
+Qed.
+
 Lemma pick_body_calm : forall pn o na, calmf (pick_body pn o na).
 Proof.
   intros pn o na t Hc. unfold pick_body. apply calm_tbind; [now apply new_unapplied_calm|].
@@ -1262,12 +1314,14 @@ Ltac ag_destruct :=
 
 Ltac apc_auto := cbv zeta; repeat (first [ag_leaf | ag_destruct]).
 
-Lemma run_refresh_apc : forall w, w_apc (fst (run_refresh w)) = w_apc w.
+Lemma run_refresh_apc : forall w p, w_apc (fst (run_refresh w p)) = w_apc w.
 Proof.
-  intros w. unfold run_refresh. cbv zeta.
+  intros w p. unfold run_refresh. cbv zeta.
+  destruct (match p with Some o => _ | None => _ end) as [loc_l|]; [|reflexivity].
   destruct (open_stack PAllow w) as [op|] eqn:Eo; [apply open_stack_apc in Eo|reflexivity].
   destruct (negb (head_top_ok op)); [exact Eo|].
-  destruct (last_error _) as [pn|]; [|exact Eo].
+  match goal with |- w_apc (fst (rres_bind _ ?r _)) = _ =>
+    destruct r as [pn| |]; cbn [rres_bind]; [|exact Eo|exact Eo] end.
   destruct (w_unmerged (op_world op)); [exact Eo|].
   unfold put. cbv zeta beta iota.
   match goal with |- context [transact ?o ?a ?f ?m] =>
@@ -1515,11 +1569,14 @@ Section Merged.
     - cbn [calm_res]. now apply (calm_ext t0).
   Qed.
 
-  Lemma run_refresh_merged : w_unmerged (fst (run_refresh w)) = false.
+  Lemma run_refresh_merged : forall p, w_unmerged (fst (run_refresh w p)) = false.
   Proof.
-    unfold run_refresh. cbv zeta. mg_open; [|exact Hu].
+    intros p. unfold run_refresh. cbv zeta.
+    destruct (match p with Some o => _ | None => _ end) as [loc_l|]; [|exact Hu].
+    mg_open; [|exact Hu].
     destruct (negb (head_top_ok op)); [exact Hu0|].
-    destruct (last_error _) as [pn|]; [|exact Hu0].
+    match goal with |- w_unmerged (fst (rres_bind _ ?r _)) = _ =>
+      destruct r as [pn| |]; cbn [rres_bind]; [|exact Hu0|exact Hu0] end.
     rewrite Hu0. unfold put. cbv zeta beta iota.
     match goal with |- context [transact ?o ?a ?f ?m] =>
       pose proof (transact_apc o a f m) as A1;
@@ -1531,15 +1588,7 @@ Section Merged.
     destruct (open_stack PAllow w2) as [op2|] eqn:Eo2; [|exact U1].
     pose proof (open_stack_apc _ _ _ Eo2) as A2. rewrite A1 in A2.
     destruct (open_stack_frame _ _ _ Eo2) as [_ [_ U2]]. rewrite U1 in U2.
-    apply transact_merged; [exact U2|quiet_solve|].
-    intros t Hc. cbv beta.
-    destruct (t_patch t pn) as [pc|]; [|exact I].
-    destruct (t_patch t _) as [tc|]; [|exact I].
-    cbv zeta. unfold put.
-    destruct (tree_eqb _ _); cbn [fst snd];
-      match goal with |- context [delete_patches ?f ?t0] =>
-        pose proof (cm_delete f t0) as Hd; destruct (delete_patches f t0) as [t2 x2] end;
-      cbn [fst] in Hd; repeat calm_step.
+    apply transact_merged; [exact U2|quiet_solve|apply refresh_absorb_calm].
   Qed.
 
   Lemma run_rebase_merged : forall tg, w_unmerged (fst (run_rebase w tg)) = false.
